@@ -26,10 +26,13 @@ Store0 == Clean(SetupStore(EmptyStore, 1))
 
 (* the answer the query would give if asked right now, as a set of items *)
 Ans(s, g) ==
-  IF g.kind = "qnet" THEN { <<e[1], e[2]>> : e \in NetFast(s.trie, s.ls, g.out, g.auto) }
+  IF g.kind \in {"qnet", "qnetslow"} THEN { <<e[1], e[2]>> : e \in NetFast(s.trie, s.ls, g.out, g.auto) }
+  ELSE IF g.kind = "qtop" THEN { e.l : e \in SeqToSet(TopBlocks(s.trie, s.ls, g.ps, 1000, g.depth)) }
   ELSE SeqToSet(ConcatWeDfs(s.trie, g.ps, 1))          \* page query: the pages of the webentity
-Result(g) == IF g.kind = "qnet" THEN { <<e[1], e[2]>> : e \in g.graph } ELSE SeqToSet(g.acc)
-Queries == { i \in 1..Len(Gens) : Gens[i].kind \in {"qnet", "qpages"} }
+Result(g) == IF g.kind \in {"qnet", "qnetslow"} THEN { <<e[1], e[2]>> : e \in g.graph }
+             ELSE IF g.kind = "qtop" THEN { e.l : e \in SeqToSet(g.acc) }
+             ELSE SeqToSet(g.acc)
+Queries == { i \in 1..Len(Gens) : Gens[i].kind \in {"qnet", "qpages", "qnetslow", "qtop"} }
 
 Init ==
   /\ st = Store0 /\ ram = EmptyRam /\ gs = Gens
@@ -54,5 +57,10 @@ NoFail == \A i \in 1..Len(gs) : gs[i].exc = ""
 NetBounds ==
   \A q \in Queries : gs[q].done =>
     LET res == Result(gs[q]) IN lo[q] \subseteq res /\ res \subseteq hi[q]
-(* run to completion without interleaving, the generator computes the declarative answer *)
+(* a query that ran alone computes the declarative answer, ranks and weights included *)
+AloneExact ==
+  \A q \in Queries : (gs[q].done /\ \A i \in 1..Len(gs) : i # q => gs[i] = Gens[i]) =>
+     IF gs[q].kind = "qtop" THEN gs[q].acc = TopBlocks(Store0.trie, Store0.ls, gs[q].ps, gs[q].k, gs[q].depth)
+     ELSE IF gs[q].kind \in {"qnet", "qnetslow"} THEN gs[q].graph = NetFast(Store0.trie, Store0.ls, gs[q].out, gs[q].auto)
+     ELSE TRUE
 =============================================================================
